@@ -1,6 +1,7 @@
 """C13 — updates and signed-only transfers require a valid, timely TSIG: guard sets of
 verify_message_byte / authorized_tsig / authorize_update / authorize_axfr, TSIG-last rule, update ordering, reply signing."""
 import re
+import argnames
 from api import shorten, Site, writers
 
 EXPLANATION = (
@@ -225,3 +226,49 @@ def run(cx):
         nw = cx.calls(sm, r'ActiveRequest::new$')
         ok = len(nw) == 1 and bool(re.search(r',phi\(Option::None\|Message::finalize\(var\(\w+\),arg1\.signer@Some\.0,Time::current_time\(\)\)@Ok\.0\)\)$', nw[0].term))
         cx.check('C13.G4', ok, sm.path, 'call:ActiveRequest::new', 'verifier-stored=the-one-finalize-returned-for-this-request', nw[0].term[-200:] if nw else 'none')
+
+    # ---------------------------------------------------------------- G5 client side: what TSigVerifier::verify accepts (RFC 8945 5.3, 5.3.1)
+    # a response is handed back only if verify_message_byte over THE RECEIVED BYTES succeeded with the previous MAC of this exchange
+    # as prefix (request MAC for the first message, the preceding response's MAC afterwards), its time is not older than the last
+    # accepted one and the request time lies in [time-fudge, time+fudge]; what is parsed is the verified byte string; the chain state
+    # (previous_signature, remote_time) advances on that path only
+    tv = cx.fn('C13.G5', 'hickory_proto::rr::tsig::TSigVerifier::verify')
+    if tv:
+        VMB5 = r'TSigner::verify_message_byte\(arg1\.signer,arg2,Option::Some\(arg1\.previous_signature\),eq\(0,arg1\.remote_time\)\)'
+        RES = rf'try\(Result::map_err\({VMB5},closure:TSigVerifier::verify::\{{closure@map_err#0\}}\)\)@Continue\.0'
+        acc = [s for s in cx.returns(tv, r'.') if not re.search(r'^Result::Err\(|from_residual\(', s.term)]
+        cx.guard('C13.G5', acc, {
+            'mac-verified-over-received-bytes-with-chained-prefix': rf'^ok\(Result::map_err\({VMB5},closure:[^)]*\)\)$',
+            'time-not-older-than-last-accepted': rf'^le\(arg1\.remote_time,{RES}\.1\)$',
+            'request-time-within-fudge-window': rf'^Range::contains\({RES}\.2,arg1\.request_time\)$'}, expect=1, fn=tv)
+        for s in acc:
+            cx.check('C13.G5', s.term == 'DnsResponse::from_buffer(slice::to_vec(arg2))', tv.path, s.key(), 'parsed-bytes=verified-bytes', s.term[:160], s.loc)
+        st = [w for w in writers(cx.prog, r'^hickory_proto::rr::tsig::TSigVerifier$', None) if w[4] == 'store']
+        bad = sorted({w[0].path for w in st} - {tv.path})
+        cx.check('C13.G5', not bad, tv.path, 'writers', 'chain-state-written-only-by-verify', ', '.join(bad))
+        by = {}
+        for w in st:
+            if w[0] is tv:
+                v = shorten(tv.term_operand(tv.blocks[w[1]]['s'][w[2]][2][1]))
+                by.setdefault(w[3].rsplit('.', 1)[-1], []).append((w[1], v))
+        cx.check('C13.G5', set(by) == {'previous_signature', 'remote_time'}, tv.path, 'writers', 'chain-state=previous-MAC+last-time', ', '.join(sorted(by)))
+        for fld, idx in (('previous_signature', 0), ('remote_time', 1)):
+            for bi, v in by.get(fld, []):
+                cx.check('C13.G5', bool(re.fullmatch(RES + rf'\.{idx}', v)), tv.path, 'store:' + fld, 'chain-state-takes-the-value-just-verified', v[:160], tv.loc(bi))
+        if acc and by:
+            cx.must_pass('C13.G5', tv, acc, via_blocks={bi for vs in by.values() for bi, _ in vs if True} and {bi for bi, _ in by.get('remote_time', [])}, what='accept=>time-advanced')
+            cx.must_pass('C13.G5', tv, acc, via_blocks={bi for bi, _ in by.get('previous_signature', [])}, what='accept=>previous-MAC-advanced')
+    sg = cx.fn('C13.G5', 'hickory_proto::rr::tsig::TSigner::sign_message')
+    if sg:
+        cons = cx.constructions(sg, 'hickory_proto::rr::tsig::TSigVerifier')
+        cx.check('C13.G5', len(cons) == 1, sg.path, 'construct', 'single-verifier-construction', str(len(cons)))
+        want = {'signer': r'^arg1$', 'remote_time': r'^0$', 'request_time': r'^arg3$',
+                'previous_signature': r'^try\(Result::map_err\(TSigner::sign\(arg1,try\(tsig::message_tbs\(arg2,TSIG::stub\(arg2\.id,arg3,arg1\),arg1\.0\.signer_name\)\)@Continue\.0\),closure:[^)]*\)\)@Continue\.0$'}
+        for (bi, si, loc), flds in cons:
+            for k, rx in want.items():
+                cx.check('C13.G5', bool(re.search(rx, flds.get(k, ''))), sg.path, 'field:' + k, 'verifier-initial-state:' + k, flds.get(k, 'missing')[:200], loc)
+
+    # ---------------------------------------------------------------- N1 argument names agree with the parameters they are bound to (engine/argnames.py)
+    argnames.check(cx, 'C13.N1', r'hickory_server::store::sqlite|hickory_proto::rr::tsig|hickory_proto::rr::rdata::tsig|hickory_net::xfer::dns_multiplexer', floor=60)
+    argnames.check_fields(cx, 'C13.N1', r'hickory_server::store::sqlite|hickory_proto::rr::tsig|hickory_proto::rr::rdata::tsig|hickory_net::xfer::dns_multiplexer', floor=36)
+
